@@ -557,7 +557,8 @@ class kLeastAbsErrors(pathmodel.AbstractPathModelDAG):
 
         # sum of edge errors
         edge_errors = self.get_solution()["edge_errors"]
-        return sum(edge_errors.values())
+        # the solver minimises the *scaled* errors: report the same quantity
+        return sum(err * self.edge_error_scaling.get(e, 1) for e, err in edge_errors.items())
     
     def get_lowerbound_k(self):
 
